@@ -41,6 +41,9 @@ struct Opts {
     time: bool,
     /// bit 0 NEW, 1 ENTER, 2 EXIT, 3 CLOSE
     span_events: u8,
+    /// the timer is chosen after the span events (the builder calls in the other order)
+    #[serde(default)]
+    timer_last: bool,
 }
 #[derive(Clone, Debug, Serialize, Deserialize, PartialEq)]
 enum W {
@@ -288,6 +291,18 @@ fn build_layer(f: Fmt, o: Opts, mw: BoxMakeWriter) -> BS {
         };
     }
     let base = fmt::subscriber().with_writer(mw);
+    if o.timer_last {
+        return match (f, o.time) {
+            (Fmt::Full, true) => common!(base).with_timer(FixedTime).boxed(),
+            (Fmt::Full, false) => common!(base).without_time().boxed(),
+            (Fmt::Compact, true) => common!(base.compact()).with_timer(FixedTime).boxed(),
+            (Fmt::Compact, false) => common!(base.compact()).without_time().boxed(),
+            (Fmt::Pretty, true) => common!(base.pretty()).with_timer(FixedTime).boxed(),
+            (Fmt::Pretty, false) => common!(base.pretty()).without_time().boxed(),
+            (Fmt::Json, true) => common!(base.json()).with_timer(FixedTime).boxed(),
+            (Fmt::Json, false) => common!(base.json()).without_time().boxed(),
+        };
+    }
     match (f, o.time) {
         (Fmt::Full, true) => common!(base.with_timer(FixedTime)).boxed(),
         (Fmt::Full, false) => common!(base.without_time()).boxed(),
@@ -807,7 +822,7 @@ impl Property for C13 {
     fn strategy(&self, tier: Tier) -> BoxedStrategy<Case> {
         let fmt_ = prop_oneof![Just(Fmt::Full), Just(Fmt::Compact), Just(Fmt::Pretty), Just(Fmt::Json)];
         let opts = (any::<bool>(), proptest::bool::weighted(0.8), any::<bool>(), any::<bool>(), any::<bool>(), any::<bool>(), proptest::bool::weighted(0.25), any::<bool>(), prop_oneof![3 => Just(0u8), 2 => 0u8..16])
-            .prop_map(|(target, level, thread_ids, thread_names, file, line, ansi, time, span_events)| Opts { target, level, thread_ids, thread_names, file, line, ansi, time, span_events });
+            .prop_map(|(target, level, thread_ids, thread_names, file, line, ansi, time, span_events)| Opts { target, level, thread_ids, thread_names, file, line, ansi, time, span_events, timer_last: (span_events as u32 + level as u32 + file as u32) % 2 == 1 });
         // string values: mostly plain, some with characters Debug has to escape (tab, ESC, DEL,
         // quote, backslash) or non-ASCII ones; never a raw line break, as the property states
         let text = |max: usize| {
